@@ -187,17 +187,17 @@ def generate(repo: pathlib.Path) -> str:  # noqa: C901  (one linear recipe)
         out.append(f"/-- {doc} -/\ndef {name} {params} : Int := {body}\n")
 
     # ---- to_internal_index / wrap
-    fn = find_method(buf, "OrderedRingBuffer", "to_internal_index")
+    fn = find_method(buf, "OrderedRingBuffer", "to_internal_index", like=[SK_TII])
     t = _if_tests(strip_doc(fn))[0].test
     if not (isinstance(t, ast.BoolOp) and isinstance(t.op, ast.And) and len(t.values) == 2):
         raise Bad("to_internal_index: range test")
     expect(fn, {id(t.values[1]): "outside"}, [SK_TII], "to_internal_index")
     emit_prop("tiiOutside", "(timestamp selfNewest oldest period : Int)", prop(t.values[1], COMMON),
               "`to_internal_index`: the (normalised) timestamp is outside the range")
-    expect(find_method(buf, "OrderedRingBuffer", "wrap"), {}, [SK_WRAP], "wrap")
+    expect(find_method(buf, "OrderedRingBuffer", "wrap", like=[SK_WRAP]), {}, [SK_WRAP], "wrap")
 
     # ---- window
-    fn = find_method(buf, "OrderedRingBuffer", "window")
+    fn = find_method(buf, "OrderedRingBuffer", "window", like=[SK_WINDOW])
     body = strip_doc(fn)
     try:
         assigns = [s for s in body if isinstance(s, ast.Assign)]
@@ -217,12 +217,12 @@ def generate(repo: pathlib.Path) -> str:  # noqa: C901  (one linear recipe)
     emit_prop("winEmpty", "(start end_ nstart nend : Int)", prop(empty.test, wn),
               "`window`: nothing to return (`nstart`/`nend` = the clamped bounds normalised onto the slot grid)")
     emit_int("winFillOrigin", "(start nstart : Int)", tr(origin, wn), "`window`: timestamp of element 0 handed to `_fill_gaps`")
-    expect(find_method(buf, "OrderedRingBuffer", "_to_covered_indices"), {}, [SK_COVERED_IDX], "_to_covered_indices")
-    expect(find_method(buf, "OrderedRingBuffer", "get_timestamp"), {}, [SK_GET_TS], "get_timestamp")
-    expect(find_method(buf, "OrderedRingBuffer", "_wrapped_buffer_window"), {}, [SK_WRAPPED], "_wrapped_buffer_window")
+    expect(find_method(buf, "OrderedRingBuffer", "_to_covered_indices", like=[SK_COVERED_IDX]), {}, [SK_COVERED_IDX], "_to_covered_indices")
+    expect(find_method(buf, "OrderedRingBuffer", "get_timestamp", like=[SK_GET_TS]), {}, [SK_GET_TS], "get_timestamp")
+    expect(find_method(buf, "OrderedRingBuffer", "_wrapped_buffer_window", like=[SK_WRAPPED]), {}, [SK_WRAPPED], "_wrapped_buffer_window")
 
     # ---- _fill_gaps
-    fn = find_method(buf, "OrderedRingBuffer", "_fill_gaps")
+    fn = find_method(buf, "OrderedRingBuffer", "_fill_gaps", like=[SK_FILL])
     try:
         loop = next(s for s in strip_doc(fn) if isinstance(s, ast.For))
         si, ei = loop.body[0].value, loop.body[1].value
@@ -234,10 +234,10 @@ def generate(repo: pathlib.Path) -> str:  # noqa: C901  (one linear recipe)
     emit_int("fgEndIndex", "(gapEnd origin period : Int)", tr(ei, fg), "`_fill_gaps`: end of the filled range (before clamping to len)")
 
     # ---- oldest/newest_timestamp, covered range, counts
-    expect(find_method(buf, "OrderedRingBuffer", "oldest_timestamp"), {}, [SK_OLDEST_TS], "oldest_timestamp")
-    expect(find_method(buf, "OrderedRingBuffer", "newest_timestamp"), {}, [SK_NEWEST_TS], "newest_timestamp")
-    expect(find_method(buf, "OrderedRingBuffer", "_covered_time_range"), {}, [SK_COVERED_RANGE], "_covered_time_range")
-    fn = find_method(buf, "OrderedRingBuffer", "count_covered")
+    expect(find_method(buf, "OrderedRingBuffer", "oldest_timestamp", like=[SK_OLDEST_TS]), {}, [SK_OLDEST_TS], "oldest_timestamp")
+    expect(find_method(buf, "OrderedRingBuffer", "newest_timestamp", like=[SK_NEWEST_TS]), {}, [SK_NEWEST_TS], "newest_timestamp")
+    expect(find_method(buf, "OrderedRingBuffer", "_covered_time_range", like=[SK_COVERED_RANGE]), {}, [SK_COVERED_RANGE], "_covered_time_range")
+    fn = find_method(buf, "OrderedRingBuffer", "count_covered", like=[SK_COUNT_COVERED])
     ret = strip_doc(fn)[-1]
     if not isinstance(ret, ast.Return) or ret.value is None:
         raise Bad("count_covered: return")
@@ -254,7 +254,7 @@ def generate(repo: pathlib.Path) -> str:  # noqa: C901  (one linear recipe)
                f"def countCoveredExact : Bool := {exact}\n")
     emit_int("countCoveredQuot", "(covered period : Int)", "(covered / period)", "`count_covered` in exact arithmetic")
 
-    fn = find_method(buf, "OrderedRingBuffer", "count_valid")
+    fn = find_method(buf, "OrderedRingBuffer", "count_valid", like=[SK_COUNT_VALID])
     body = strip_doc(fn)
     try:
         gen = next(s for s in body if isinstance(s, ast.Assign)).value.args[1].args[0]  # max(0, sum(<gen>))
@@ -271,7 +271,7 @@ def generate(repo: pathlib.Path) -> str:  # noqa: C901  (one linear recipe)
     emit_int("cvStraight", "(cap startPos endPos missing : Int)", tr(ret_straight, cv), "`count_valid` otherwise")
 
     # ---- MovingWindow.at
-    fn = find_method(mw, "MovingWindow", "at")
+    fn = find_method(mw, "MovingWindow", "at", like=[SK_AT_PINNED, SK_AT_FIXED])
     body = strip_doc(fn)
     try:
         if_dt = _if_tests(body)[1]
